@@ -164,7 +164,7 @@ Definition value_dict (st : wf) (p : panel) : list (string * option Z) :=
   map (fun e => (fst e, val st (snd e))) p.
 
 (* ---- results ---------------------------------------------------------------------------- *)
-Inductive exc := TypeErr | ValueErr | AttrErr | KeyErr | DupErr | NoRef | CycleErr | Skip.
+Inductive exc := TypeErr | ValueErr | AttrErr | KeyErr | DupErr | NoRef | CycleErr | Skip | KVDupErr.
 Inductive res := ROk | RExc (e : exc) | RRet (l : list (string * option Z)).
 
 (* ---- editing the graph ------------------------------------------------------------------- *)
@@ -332,6 +332,60 @@ Definition set_map (st : wf) (d : dir) (m : option (list (string * option string
   | None => (st, RExc DupErr)
   end.
 
+(* ---- editing a stored map in place: wf.inputs_map[key] = value, del ..., .update(...) --------
+   The getter hands out the stored bidict itself (after _deduplicate_nones), so these go
+   through bidict's own checks (on_dup: an existing key is overwritten where it stands, a value
+   held by ANOTHER key raises and changes nothing; update is all-or-nothing, item by item).
+   A None value is stored raw and turned into the "<key> disabled" tuple by the next access
+   of the property -- before anything can look at it -- so it is modelled as MOff key. *)
+Fixpoint put_at (l : list (string * mval)) (k : string) (v : mval) : list (string * mval) :=
+  match l with
+  | [] => [(k, v)]
+  | (k', v') :: r => if String.eqb k k' then (k, v) :: del String.eqb k r else (k', v') :: put_at r k v
+  end.
+
+Definition mv (k : string) (v : option string) : mval :=
+  match v with Some s => MName s | None => MOff k end.
+
+(* None = bidict raises; the flag tells KeyAndValueDuplicationError from ValueDuplicationError *)
+Definition put (l : list (string * mval)) (k : string) (v : mval) : list (string * mval) + bool :=
+  if memb mval_eqb v (map snd (del String.eqb k l)) then inr (mems k (map fst l))
+  else inl (put_at l k v).
+
+Definition dup_exc (key_present : bool) : exc := if key_present then KVDupErr else DupErr.
+
+Definition map_setitem (st : wf) (d : dir) (k : string) (v : option string) : wf * res :=
+  match kmap_of st d with
+  | None => (st, RExc TypeErr)
+  | Some l => match put l k (mv k v) with
+              | inl l' => (set_kmap st d (Some l'), ROk)
+              | inr kp => (st, RExc (dup_exc kp))
+              end
+  end.
+
+Definition map_delitem (st : wf) (d : dir) (k : string) : wf * res :=
+  match kmap_of st d with
+  | None => (st, RExc TypeErr)
+  | Some l => if mems k (map fst l) then (set_kmap st d (Some (del String.eqb k l)), ROk)
+              else (st, RExc KeyErr)
+  end.
+
+Fixpoint put_all (l : list (string * mval)) (ps : list (string * option string))
+  : list (string * mval) + bool :=
+  match ps with
+  | [] => inl l
+  | (k, v) :: r => match put l k (mv k v) with inl l' => put_all l' r | inr kp => inr kp end
+  end.
+
+Definition map_update (st : wf) (d : dir) (ps : list (string * option string)) : wf * res :=
+  match kmap_of st d with
+  | None => (st, RExc AttrErr)
+  | Some l => match put_all l ps with
+              | inl l' => (set_kmap st d (Some l'), ROk)
+              | inr kp => (st, RExc (dup_exc kp))
+              end
+  end.
+
 (* wf.inputs[key] = value *)
 Definition assign (st : wf) (key : string) (v : Z) : wf * res :=
   match build_io st DIn with
@@ -465,7 +519,7 @@ Definition run_wf (st : wf) (kw : list (string * Z)) : wf * res :=
         else
           let st2 := execute st1 in
           match build_io st2 DOut with
-          | None => (st2, RExc TypeErr)          (* failed: no cache written *)
+          | None => (set_cache st2 None, RExc TypeErr)   (* failed: the remembered inputs are dropped *)
           | Some po => (set_cache st2 (Some (value_dict st2 p)), RRet (value_dict st2 po))
           end
   end.
@@ -483,7 +537,10 @@ Inductive op :=
 | ORun (kw : list (string * Z))
 | OReadd (shelf_label : string) (new_label : option string)
 | ORelabel (cur new : string)
-| OReplace (cur : string) (src : option string).
+| OReplace (cur : string) (src : option string)
+| OMapSet (d : dir) (k : string) (v : option string)
+| OMapDel (d : dir) (k : string)
+| OMapUpdate (d : dir) (ps : list (string * option string)).
 
 Definition step (st : wf) (o : op) : wf * res :=
   match o with
@@ -499,6 +556,9 @@ Definition step (st : wf) (o : op) : wf * res :=
   | OReadd sl nl => readd st sl nl
   | ORelabel c n => relabel_child st c n
   | OReplace c src => replace_child st c src
+  | OMapSet d k v => map_setitem st d k v
+  | OMapDel d k => map_delitem st d k
+  | OMapUpdate d ps => map_update st d ps
   end.
 
 Fixpoint run_ops (st : wf) (ops : list op) : wf :=
@@ -542,6 +602,7 @@ Definition exc_name (e : exc) : string :=
   | TypeErr => "TypeError" | ValueErr => "ValueError" | AttrErr => "AttributeError"
   | KeyErr => "KeyError" | DupErr => "ValueDuplicationError" | NoRef => "noref"
   | CycleErr => "CircularDataFlowError" | Skip => "skip"
+  | KVDupErr => "KeyAndValueDuplicationError"
   end.
 
 Definition res_obs (r : res) : obs :=
